@@ -141,6 +141,14 @@ def judge(emit, cid, cell, common, prob, tol, outs, sample, f32=()):
                                   detail="%s: stop=%.3g <= tol=%g but reference violation=%.3g" % (k, stop, tol, certs[k])))
     conv = [k for k in certs if solved[k][2] is None or solved[k][2] <= tol]
     ref_k = next((k for k in ("dense_F", "csc") if k in conv), None)
+    if ref_k is not None:
+        # same algorithm, same problem, same budget: a container that is still far from the tolerance when the dense /
+        # CSC baseline has converged got a different treatment of the data
+        for k, (_, coef, stop) in solved.items():
+            if k in certs and stop is not None and stop > 100 * tol and k not in f32:
+                viols.append(dict(common, mechanism="container-does-not-converge-where-baseline-does", container=k,
+                                  reference_container=ref_k, stop=float(stop),
+                                  detail="%s stops at %.3g > tol=%g within the budget in which %s converges" % (k, stop, tol, ref_k)))
     if prob.pen.convex and ref_k is not None:
         for k in conv:
             if k == ref_k:
@@ -180,19 +188,24 @@ def solver_case(emit, cid, solver, df, pen, rng, seed, rep):
     cs = dict(check="C10", seed=seed, coords=[solver, str(df), pen, rep], solver=solver, datafit=df, penalty=pen,
               storage="dense", fit_intercept=icpt, strategy="subdiff", n=int(rng.integers(12, 35)), p=int(rng.integers(3, 12)),
               xkind=str(rng.choice(["gauss", "ar", "shifted", "centered"])), rho=0.7, density=float(rng.choice([1.0, 0.5])),
-              alpha_frac=float(rng.choice([0.05, 0.3])), knobs=knobs, group_style=str(rng.choice(["contig", "perm"])),
+              alpha_frac=float(rng.choice([0.05, 0.3])), knobs=knobs, group_style=str(rng.choice(["contig", "perm", "trap"])),
               n_tasks=int(rng.integers(1, 4)), zero_weights=bool(rng.integers(0, 2)))
+    if rng.random() < 0.4 and cs["p"] > 3:
+        cs["mutate_X"] = str(rng.choice(["zero_col@first", "zero_col@middle", "zero_col@last"]))   # an empty CSC column
     case = K.Case(cs)
+    warm = str(rng.choice(["cold", "dense"]))
+    w_start, xw_start = case.start(warm)
     outs = {}
     for kind in CONTAINERS:
         case.X = container(case.Xd, kind)
-        out = case.solve(None, None)
+        out = case.solve(w_start, xw_start)
         if out["exc"] is not None:
             e = out["exc"]
             outs[kind] = (classify_exc(e), type(e).__name__, str(e).replace("\n", " "))
         else:
             outs[kind] = ("ok", np.asarray(out["w"], float), out["stop"])
-    common = dict(solver=solver, datafit=df, penalty=pen, fit_intercept=case.fit_intercept)
+    common = dict(solver=solver, datafit=df, penalty=pen, fit_intercept=case.fit_intercept, warm=warm,
+                  mutate_X=cs.get("mutate_X"))
     judge(emit, cid, "%s|%s|%s" % (solver, df, pen), common, case.ref, tol, outs, rep == 0)
 
 
